@@ -51,12 +51,14 @@
 (* the case's grammar must be LR(1) (a conflict reached during evaluation  *)
 (* is reported and the case is discarded by the orchestrator).             *)
 (***************************************************************************)
-EXTENDS CanonLR, SemVal, Cfg, TLC, Json, IOUtils
+EXTENDS CanonLR, SemVal, Cfg, Prec, TLC, Json, IOUtils
 
 (* raw cases; those carrying cfg attributes mean their filtered grammar (Cfg.tla) *)
 Raw == JsonDeserialize(IOEnv.EVAL_CASES)
 HasCfg(r) == "feats" \in DOMAIN r
-Cases == [i \in DOMAIN Raw |-> IF HasCfg(Raw[i]) /\ SelfContained(Raw[i]) THEN ApplyCfg(Raw[i]) ELSE Raw[i]]
+Cases == [i \in DOMAIN Raw |-> IF HasCfg(Raw[i]) /\ SelfContained(Raw[i]) THEN ApplyCfg(Raw[i])
+                               ELSE IF HasPrec(Raw[i]) THEN ApplyPrec(Raw[i])   \* the documented tiered grammar (Prec.tla)
+                               ELSE Raw[i]]
 NC == Len(Cases)
 Evaluable(k) == HasCfg(Raw[k]) => SelfContained(Raw[k])
 PreOf == [k \in 1..NC |-> Pre(Cases[k].G)]
